@@ -246,6 +246,38 @@ let () =
       let n = kvi "n" head 0 and bits = kvi "bits" head 0 in
       let ops = List.filter (fun s -> s <> "") (String.split_on_char ';' (String.sub line (i + 1) (String.length line - i - 1))) in
       let f = if n = 0 then never_fail else fail_at (nat_of_int (n - 1)) in
+      if kind = "parse" then begin
+        (* no Coq model behind this kind: the legacy reply parsers are enumerated only.  Oracle:
+           the call reports failure and hands out nothing, or it reports success and the result
+           is, field by field, the result of the run without failure; nothing stays allocated *)
+        let kvs key = List.fold_left (fun acc w -> match acc with Some _ -> acc | None ->
+            let p = key ^ "=" in if starts_with p w then Some (String.sub w (String.length p) (String.length w - String.length p)) else None)
+            None (String.split_on_char ' ' head) in
+        let fn = match kvs "fn" with Some f -> f | None -> "?" in
+        let base = match kvs "base" with Some b -> b | None -> "?" in
+        let got = List.filter_map (fun l -> if starts_with "R " l then Some (String.sub l 2 (String.length l - 2)) else None) (impl_lines impl k) in
+        (match got with
+         | [g] ->
+           let parts = String.split_on_char ' ' g in
+           let st = match parts with t :: _ -> (match String.index_opt t '@' with Some j -> String.sub t 0 j | None -> t) | [] -> "?" in
+           let idump = match List.find_opt (fun t -> starts_with "dump=" t) parts with
+             | Some t -> String.sub t 5 (String.length t - 5) | None -> "?" in
+           let iend = match List.find_opt (fun t -> starts_with "end=" t) parts with
+             | Some t -> int_of_string (String.sub t 4 (String.length t - 4)) | None -> -1 in
+           let api = "ares_parse_" ^ (if fn = "ptr6" then "ptr" else fn) ^ "_reply" in
+           Printf.printf "CASE %d %s\n" k
+             (if n = 0 then "trivial-no-failure-parse-" ^ fn
+              else if st = "0" then "parse-" ^ fn ^ "-proceeds"
+              else if st = "15" then "parse-" ^ fn ^ "-enomem" else "parse-" ^ fn ^ "-status-" ^ st);
+           if n = 0 && (st <> "0" || idump <> base) then Printf.printf "FAIL %d parse-baseline-unstable:%s status=%s dump=[%s] recorded=[%s]\n" k api st idump base;
+           if n > 0 && st = "0" && idump <> base then
+             Printf.printf "FAIL %d wrong-result:%s ARES_SUCCESS with a result that differs from the one without failure: [%s] expected [%s]\n" k api idump base;
+           if st <> "0" && not (idump = "-" || starts_with "-," idump) then
+             Printf.printf "FAIL %d output-on-failure:%s status=%s but a result was handed out: [%s]\n" k api st idump;
+           if iend <> 0 then Printf.printf "FAIL %d leak:%s blocks=%d still allocated after the call\n" k api iend
+         | _ -> if List.exists (fun l -> starts_with "MONITOR" l) (impl_lines impl k) then Printf.printf "CASE %d sanitizer-report\n" k
+           else Printf.printf "CASE %d trivial-no-output\n" k)
+      end else
       if kind = "wire" then begin
         (* no Coq model behind this kind: the DNS writer is enumerated only.  Oracle: when
            ares_dns_write reports success the names read back are the names given *)
